@@ -8,7 +8,7 @@ LEVEL = 'exploration'
 RULE = ('histories of 100-600 DjangoCache calls (add, get, set, touch, delete, incr, decr, has_key, get_many, set_many, '
         'delete_many, get_or_set with plain and callable defaults, incr_version/decr_version, pop, clear, in) over 6 keys '
         'x versions {None,1,2,3} x timeouts {omitted, None, 0, -1, 0.5, 5.5, 1e3} with clock jumps, for backend '
-        'parameters TIMEOUT in {300, None, 2} x KEY_PREFIX in {"", "p"} x VERSION in {1,2} x SHARDS in {1,3,8}, '
+        'parameters TIMEOUT in {300, None, 2, 0} x KEY_PREFIX in {"", "p"} x VERSION in {1,2} x SHARDS in {1,3,8}, '
         'compared call by call with a reference dictionary keyed by "prefix:version:key" that implements the contract '
         'under the virtual clock; at the end every (key, version) is read back. evaluations = calls judged; '
         'distinct_nontrivial = distinct (operation, timeout class, key state, outcome, backend parameters) cells')
@@ -296,7 +296,7 @@ def call(fn):
 def run_shard(tier, seed, shard, nshards, res):
     dc = common.use_repo()
     probe.install()
-    combos = [(t, p, v, s) for t in (300, None, 2) for p in ('', 'p') for v in (1, 2) for s in (1, 3, 8)]
+    combos = [(t, p, v, s) for t in (300, None, 2, 0) for p in ('', 'p') for v in (1, 2) for s in (1, 3, 8)]
     with common.Scratch() as sc:
         for i in range(40 if tier == "quick" else 400):
             rng = common.rng_for(seed, 'c19', shard, i)
